@@ -1015,7 +1015,8 @@ class C01(PropBase):
     trusted_base = [
         "Coq 8.16.1 kernel; vm_compute only in witnesses (c01_*_refuted) and non-vacuity examples",
         "hand-written model C01/Model.v of minidump.rs's list/string/directory/handle/exception machinery and of scroll 0.12's Pread bounds rule; "
-        "tied to the code by the correspondence run (33 fields per case + the largest ledger entry as a lower bound of the measured peak request)",
+        "tied to the code by the correspondence run (38 fields per case + the largest ledger entry as a lower bound of the measured peak request); its record sizes, field offsets / widths, array lengths and the CONTEXT_* table are proved equal to Gen/Layouts.v (translate/format_layouts.py, regenerated from format.rs): c01_layout_pinned",
+        "C08's hand-written model of into_rangemap_safe / range-map (RM.C08.Model, validated against the code by C08's own check) under the lookup theorems of C01/LModel.v",
         "translate/c01_sites.py (regex/brace-level scan of the Rust source, not a Rust parser): finds the trap/loop/allocation/guard sites by their surface syntax; "
         "a panic hidden behind a method call it does not know (a new helper crate, an operator trait) is not a site; the classification of coq/C01/Sites.v "
         "(Covered/Safe/Searched) is a reviewed table, per function and kind, not a line-by-line refinement proof",
@@ -1024,7 +1025,7 @@ class C01(PropBase):
         "the model runs profile Debug; Release differs only where a chk_* site would wrap, which c01_no_panic excludes",
     ]
     assumptions = [
-        "partial: only the modelled sites carry theorems; every other stream reader, all print routines, the range-map builders (C08), encoding_rs, "
+        "partial: only the modelled sites carry theorems; every other stream reader, all print routines, encoding_rs, "
         "time formatting, procfs parsing, BTreeMap/HashMap growth are exercised by the search harness and judged by the oracle, not proved",
         "HashMap::with_capacity(n) (thread list, thread info list) is sized from an already materialised Vec and is not a ledger entry",
         "usize is 64 bits; file length < 2^62 (any Rust slice satisfies len <= isize::MAX)",
@@ -1040,17 +1041,23 @@ class C01(PropBase):
                 "(c01_*_unfixed_refuted: F-C01a..d). The rest of the property lives in the runtime and is searched, not proved: a harness with a counting "
                 "global allocator and a watchdog opens each case, requests all 24 stream types, runs every accessor and print routine, and an oracle "
                 "requires no panic, termination and a largest single allocation <= max(64 KiB, 16*len); the extracted model must agree with the real "
-                "reader on 33 observables per case. Round 4: the queries on a parsed dump are modelled and proved for both profiles (memory_range of regions / memory info / "
+                "reader on 38 observables per case. Round 4: the queries on a parsed dump are modelled and proved for both profiles (memory_range of regions / memory info / "
                 "modules: c01_memory_range_sound; MinidumpThread::last_error address arithmetic: c01_last_error_in_bounds; get_crash_address: c01_crash_address_total; "
                 "ELF debug id padding: c01_elf_debug_id_reads; the four compared query fields: c01_crash_queries_total). A source scan lists every index / unwrap / "
                 "panic macro / unchecked arithmetic / division / integer cast / allocation / copy / unsafe / loop / inequality / guard site of minidump/src and "
                 "minidump-common/src (1 138 sites in 440 groups; kinds incl. panicking calls such as Range::new, self-recursion, equality guards and early exits); c01_sites_pinned proves the scanned list equal (count and digest per function and kind) to the reviewed "
                 "table C01/Sites.v and c01_sites_classified that every group is covered by a named theorem, safe for a stated reason, or searched by a named harness step - "
-                "a new or edited site, or a removed guard, breaks that obligation before any failing input is needed.",
+                "a new or edited site, or a removed guard, breaks that obligation before any failing input is needed. "
+                "Round 5: the address / id lookups are inside the model (from_modules / from_regions + module_at_address, memory_at_address of both memory lists, memory_info_at_address, by_addr, "
+                "get_thread; five compared fields AM AL AI A6 TG) over C08's range-map model: for ANY list of optional ranges the table build does not panic, every stored index and every "
+                "index a lookup returns is a position of the list whose own range contains the address (c01_address_lookup_total, c01_unloaded_lookup_in_range, c01_get_thread_index_total, "
+                "c01_lookups_total for every byte string). The layout constants of the models (35 record sizes, 75 field offsets/widths, 5 array lengths, the CONTEXT_* table) are proved equal to "
+                "the layouts regenerated from format.rs (c01_layout_pinned), and every index site with an integer-literal index found by the scan (394 sites) is proved below the length of its "
+                "array as the generated layouts give it (c01_const_indices_in_bounds).",
         "note": "Trusted: Coq kernel; hand-written model (correspondence-checked on every run, not verified against the Rust source); scroll's Pread "
                 "bounds rule as read from its source; extraction + OCaml/Rust glue; the counting allocator. Not covered by theorem: the groups classified "
-                "Searched in C01/Sites.v (CrashReason tables and Display, most printer bodies, context register access, system-info formatting, procfs maps), "
-                "encoding_rs/time, C08's range maps. The site scan is syntactic (regex over blanked source), its classification a reviewed table. No axioms.",
+                "Searched in C01/Sites.v (CrashReason tables and Display, most printer bodies, context register access by variable index, system-info formatting, procfs maps), "
+                "encoding_rs/time. C08's range-map model is reused, not re-verified here. The site scan is syntactic (regex over blanked source), its classification a reviewed table. No axioms.",
     }
 
     def gen_cases(self, tier, seed):
